@@ -12,7 +12,7 @@ CHECKS = {
    text="Seeded search over call histories (up to 3 callers, 12 ops, mutation of handed-out objects, shared arguments, pre-emption between Python lines with nested operations of another caller). Every pool argument is snapshotted bit-exactly before the library sees it, after every op and at every pre-emption point; every result is compared with the op's own lineage replayed alone by a reference server forked from the pristine run. An enumerated aliasing grid (~2200 one-op cases) and a re-entrancy sweep (every catalogued call re-entered by a second caller at 7 points) run in every check. Sampling of histories, enumeration of the grid; not proof.",
    note="Trusted: fork-from-pristine-zygote isolation, scipp pinned to one thread (bit-reproducible), canonical serialisation in dsim/canon.py (dims compared in sorted layout). The reference is the same code without history, so only history dependence / argument mutation is judged, never formulas. The catalogue (43 calls, 50 factories, 27 derivations) is hand-written; its module coverage is reported in the evidence."),
  "C12": dict(level="fault_enumeration", design="DESIGN.md §5 C12/C13, §9.2",
-   technique="deterministic simulation with fault injection: seeded builder programs (subset/order/repeats of calls, refused calls, builder re-use, refused create() of another builder first) x chunk/byte-order/sink/clock knobs; every write ordinal of sampled programs enumerated as ENOSPC crash point with retry on the same builder; RLIMIT_FSIZE disk-full on real files at region boundaries; a second simulated caller's create() scheduled at line boundaries / source lines / inside sink writes of the first (enumerated sweep for canonical programs); independent SQW decoder as oracle",
+   technique="deterministic simulation with fault injection: seeded builder programs (subset/order/repeats of calls, refused calls, builder re-use, refused create() of another builder first) x chunk/byte-order/sink/clock knobs; every write ordinal of sampled programs enumerated as ENOSPC crash point with retry on the same builder; RLIMIT_FSIZE disk-full on real files at region boundaries; a second simulated caller's create() scheduled at line boundaries / source lines / inside sink writes of the first (enumerated sweep for canonical programs); interruption (KeyboardInterrupt-like) at line boundaries / inside writes followed by continued use; independent SQW decoder as oracle",
    text="Builder programs are sampled by seed; for sampled programs EVERY write ordinal of the fault-free twin is replayed as the first failing write (complete enumeration of that program's crash points; the medium stays full), real files are hit with disk-full at every region boundary +-1 and inside the last stdio buffer, and after the fault clears the very builder that failed creates the file again. Oracle: independent decoder checks header, BAT (each block once, order independent of call order via a permuted twin), contiguous extents ending at EOF, exact decode lengths; acknowledgement rule under faults.",
    note="Trusted: my reading of the SQW layout in dsim/ref_sqw.py (self-tested on a hand-assembled file and the byte strings pinned by the repo's tests); in-memory sinks are BytesIO subclasses; only write-side faults (the format carries no integrity data); programs are sampled, crash points of a sampled program are enumerated (evidence says per run whether completely)."),
  "C13": dict(level="exploration", design="DESIGN.md §5 C12/C13, §9.2",
@@ -20,19 +20,19 @@ CHECKS = {
    text="Same seeded programs as C12. The written bytes are decoded independently and compared with what the scenario supplied: pixels (float32, single rounding, computed from pristine copies with scipp.to_unit), pixel metadata, one experiment record per run (1-based ids, meV, rad, direct and indirect mode), shared instrument/sample containers, histogram metadata and zero histogram; every block is then read with the package's reader and compared incl. the physical dimension of every unit. The same builder and input objects are used for a second create(); inputs must be bit-identical afterwards.",
    note="Trusted: ref_sqw decoder; scipp unit conversion; the reader is only consulted for structurally sound files."),
  "C14": dict(level="exploration", design="DESIGN.md §5 C14, §9.2",
-   technique="deterministic simulation with fault injection: seeded programs over pools of CIF builders/blocks/chunks/loops (derivations, copies, repeated saves, refused operations followed by continued use), scripted clock, ENOSPC at every write ordinal of a save followed by a save of the same builder, RLIMIT_FSIZE on paths, a second caller's save interleaved at line boundaries / inside sink writes, caller-side in-place change of column variables between saves; independent CIF 1.1 parser + reference model of the program as oracle; known finding attributed by counterfactual",
+   technique="deterministic simulation with fault injection: seeded programs over pools of CIF builders/blocks/chunks/loops (derivations, copies, repeated saves, refused operations followed by continued use), scripted clock, ENOSPC at every write ordinal of a save followed by a save of the same builder, RLIMIT_FSIZE on paths, a second caller's save interleaved at line boundaries / inside sink writes, interruption of a save followed by saving again, caller-side in-place change of column variables between saves; independent CIF 1.1 parser + reference model of the program as oracle; known finding attributed by counterfactual",
    text="Seeded programs of builder calls write through a simulated text sink or a real path; an independent CIF 1.1 parser must accept every saved text and recover exactly the supplied tags, values (strings up to surrounding blanks, numbers to printed precision, value(su), sqrt(variance) columns), loop shapes and order; author-role ids, ASCII-only and comment isolation are checked on every save; failed saves (every write ordinal) are followed by a save of the same builder that must be complete. String values and comments come from a labelled hazard alphabet incl. long text around the 80/2048 character line limits; 10 % of runs switch their process to the POSIX locale.",
    note="Trusted: dsim/ref_cif.py (written from the CIF 1.1 grammar, self-tested on 24 hand-made documents). One recorded finding (F-C14-1: text with a line starting ';' has no CIF 1.1 representation) is attributed by counterfactual and reported as KNOWN-FINDING."),
  "C15": dict(level="exploration", design="DESIGN.md §5 C15, §9.2",
-   technique="deterministic simulation with fault injection (thin): save/load through simulated text sinks and real paths, reload in a freshly forked process, ENOSPC at every write ordinal / RLIMIT_FSIZE, retry, same target rewritten with other data, a second caller's save interleaved at every line of xye.py and every sink write (enumerated), process locale (UTF-8 / POSIX) as a knob",
+   technique="deterministic simulation with fault injection (thin): save/load through simulated text sinks and real paths, reload in a freshly forked process, ENOSPC at every write ordinal / RLIMIT_FSIZE, retry, same target rewritten with other data, a second caller's save interleaved at every line of xye.py and every sink write (enumerated), interruption at every such point followed by saving again, process locale (UTF-8 / POSIX) as a knob",
    text="Round trips through in-memory sinks and real files (read back in the same and in a freshly forked process), bit-exact coordinate/values, variances to 4 ulp, ASCII headers incl. control characters, hostile coordinate names (they end up in the generated header), the eleven refusal cases (incl. 0-d masks) leave the target unwritten, acknowledgement rule under write faults, retry after the fault, and a second data set written to the same target must be what is loaded afterwards.",
    note="Close to a pure function; the simulator contributes the storage seam (sink kind, faults, rewrite, restart). Trusted: numpy text I/O."),
  "C17": dict(level="fault_enumeration", design="DESIGN.md §5 C17, §9.2",
-   technique="deterministic simulation with fault injection: scipy's curve_fit behind a proxy that numbers, logs, fails (RuntimeError) or perturbs ('another legal optimum') individual optimiser calls; every single-failure plan (peak, call ordinal) enumerated for sampled inputs under a deterministic cost cap; isolation (multi-peak vs single-peak under the restricted plan; a second caller's fit_peaks interleaved at source lines of _fit_peaks.py, enumerated for a canonical input), attempt-order, model-selection decomposition, coherence, requirements, window and removal oracles",
+   technique="deterministic simulation with fault injection: scipy's curve_fit behind a proxy that numbers, logs, fails (RuntimeError) or perturbs ('another legal optimum') individual optimiser calls; every single-failure plan (peak, call ordinal) enumerated for sampled inputs under a deterministic cost cap; isolation (multi-peak vs single-peak under the restricted plan; a second caller's fit_peaks interleaved at source lines of _fit_peaks.py, enumerated for a canonical input; interruption inside fit_peaks followed by the same call), attempt-order, model-selection decomposition, coherence, requirements, window and removal oracles",
    text="For sampled spectra every optimiser call of the fault-free run is failed once (one plan per call; subsampled only above a deterministic cost bound, stated in the evidence), plus 'everything fails', 'every full fit of peak i fails' and seeded mixed plans. Each peak's result must equal fitting that peak alone under the restricted plan; bystander peaks must be bit-identical to the fault-free run; attempts follow the documented order; statistics are recomputed independently; success implies every requirement incl. an independently fitted background AIC; automatic windows obey their rules; remove_peaks touches only successful windows.",
    note="Trusted: dsim/ref_fit.py closed forms (cross-checked against FitResult.eval_model with a conditioning-aware tolerance); only RuntimeError (scipy's documented non-convergence signal) is injected; no optimiser numerics are predicted."),
  "C20": dict(level="exploration", design="DESIGN.md §5 C20, §9.2",
-   technique="deterministic simulation with fault injection: seeded lookup histories by 1-3 simulated callers, lru_cache pressure/eviction, settrace pre-emption inside the CSV scan (another caller's lookup mid-scan), OSError at open / n-th readline with retry, re-used Material objects, process locale (UTF-8 / POSIX: default text encoding of open()) as a knob; all 4046 rows swept; csv-module reference model",
+   technique="deterministic simulation with fault injection: seeded lookup histories by 1-3 simulated callers, lru_cache pressure/eviction, settrace pre-emption inside the CSV scan (another caller's lookup mid-scan), OSError at open / n-th readline with retry, interruption inside a lookup followed by the same lookup, re-used Material objects, process locale (UTF-8 / POSIX: default text encoding of open()) as a knob; all 4046 rows swept; csv-module reference model",
    text="Every row of the three tables is looked up (miss and post-eviction) in each check; seeded histories interleave callers, near-miss names (looked up repeatedly), cache pressure, pre-emption inside the scan loop and injected open/readline failures followed by one retry. Every answer is compared field by field with an independent parse of the CSVs; every other name must raise; the 1/v law is evaluated on looked-up parameters with fresh and re-used Material objects.",
    note="Trusted: csv-module parse of the same files; exact float equality (same float(str)); any exception counts as rejection; histories are sampled, the name space is enumerated."),
 }
